@@ -7,7 +7,7 @@ from ..terms import A, C, F, V, L, NIL, call, conj, TRUE, show_clause, show_term
 
 ID = 'C09'
 LEVEL = 'model_checking'
-RULE = ('every program t(..) :- [Gv = Goal,] Builtin for Builtin in {call(G), call(G\',Extra..) for every split of '
+RULE = ('(thorough: also EVERY tower of 2 and of 3 wrappers out of call/1, once/1, call(once,.), call(call,.), findall(f(X,Y),.,Bag) around each goal) every program t(..) :- [Gv = Goal,] Builtin for Builtin in {call(G), call(G\',Extra..) for every split of '
         'the goal\'s arguments into carried and extra arguments (<= 2 extra; for the 12- and 6-argument predicates every split, i.e. call/1 .. call/13; and call(call(G,A..),B..) with extra arguments at both levels for every split), once(G), \\+ call(G), findall(T,G,L) for 6 templates, '
         'each optionally followed by a continuation goal or used twice in a row on the same goal term} x goal in {atoms and compound goals with 0/1/2 solutions '
         'over compiled facts, a rule, dynamic facts, a predicate with both compiled clauses and a dynamic fact, an undefined predicate} x goal written inline, arriving in a '
@@ -23,7 +23,7 @@ X, Y, G, Lv = V('X'), V('Y'), V('G'), V('L')
 
 
 def bounds(tier):
-    return {'nesting': 0 if tier == 'quick' else 1}
+    return {'nesting': 0 if tier == 'quick' else 2, 'towers_of_wrappers': 0 if tier == 'quick' else 3}
 
 
 SUPPORT = [
@@ -83,7 +83,25 @@ def builtin_goals(goal, nesting):
                       lambda g: call(F('findall', F('p', X, V('L2')), F('findall', Y, g, V('L2')), Lv)), True))
         forms.append(('call(findall,..)', goal, lambda g: call(F('call', F('findall', X, g), Lv)), True))
         forms.append(('findall(call/2)', goal, lambda g: call(F('findall', X, F('call', g), Lv)), True))
+    # towers: EVERY composition of 2 (nesting >= 1) and 3 (nesting >= 2) wrappers out of call/1, once/1,
+    # call(once, .), call(call, .), findall(f(X,Y), ., Bag) around the goal; the bag of an inner findall is
+    # a local variable, the bag of the outermost one is the head's L
+    for depth in range(2, 2 + min(nesting, 2)):
+        for tower in itertools.product(range(len(WRAPPERS)), repeat=depth):
+            uses = WRAPPERS[tower[0]][0] == 'findall'
+            forms.append(('tower-' + '-'.join(WRAPPERS[w][0] for w in tower), goal, (lambda g, tw=tower: call(build_tower(tw, g))), uses))
     return forms
+
+
+WRAPPERS = [('call', lambda g, lvl: F('call', g)), ('once', lambda g, lvl: F('once', g)), ('call(once)', lambda g, lvl: F('call', A('once'), g)),
+            ('call(call)', lambda g, lvl: F('call', A('call'), g)),
+            ('findall', lambda g, lvl: F('findall', F('f', X, Y), g, Lv if lvl == 0 else V('Bag%d' % lvl)))]
+
+
+def build_tower(tower, g):
+    for lvl in range(len(tower) - 1, -1, -1):
+        g = WRAPPERS[tower[lvl]][1](g, lvl)
+    return g
 
 
 def programs(nesting):
@@ -246,7 +264,7 @@ NSH = 32
 
 
 def plan(tier):
-    nesting = 0 if tier == 'quick' else 1
+    nesting = 0 if tier == 'quick' else 2
     return ([('b', k, NSH, nesting) for k in range(NSH)] + [('e', k, NSH) for k in range(NSH)] + [('a', k, 4) for k in range(4)]
             + [('cleared', 'b', k, NSH, 0) for k in range(NSH)] + [('cleared', 'e', k, NSH) for k in range(NSH)])
 
